@@ -56,6 +56,8 @@ def configs(tier):
             out.append((sh, axis, 'list', 2, '3d-progress', 'virtual'))       # progress='tqdm' (module absent)
             out.append((sh, axis, 'dict', 3, '3d-progress', 'virtual'))
             out.append((sh, axis, 'shared', 2, 'group', 'virtual'))
+            out.append((sh, axis, 'shared', 1, 'group-amp', 'virtual'))       # amp method, min_n_cycles in burst options AND thresholds
+            out.append((sh, axis, 'listdup', 1, '3d', 'virtual'))              # the same signal at several positions, different options
             out.append((sh, axis, 'shared', 1, 'group-refit', 'virtual'))
             if ntasks(sh, axis) <= (3 if q else 4):
                 out.append((sh, axis, 'list', 2, '3d', 'real'))
@@ -143,8 +145,14 @@ class Schedules3D(Space):
         kind, nj, order = c['options'], c['n_jobs'], list(c['order'])
         n0, n1 = sh
         sigs = np.array([[S.word_signal(WORDS[i * n1 + j]) for j in range(n1)] for i in range(n0)])
-        sgn = {'entry': c['entry'], 'executor': c['executor'], 'options': kind, 'axis': repr(axis), 'square': n0 == n1}
-        if c['entry'].startswith('group'):
+        if kind == 'listdup':
+            sigs = np.array([[S.word_signal(WORDS[(i + j) % 2]) for j in range(n1)] for i in range(n0)])
+            kind = 'list'
+        sgn = {'entry': c['entry'], 'executor': c['executor'], 'options': c['options'], 'axis': repr(axis), 'square': n0 == n1}
+        if c['entry'] == 'group-amp':
+            opts = {'burst_method': 'amp', 'threshold_kwargs': dict(S.TA0), 'burst_kwargs': {'amp_threshes': (.5, 1.), 'min_n_cycles': 4}}
+            kind_ref = 'dict'
+        elif c['entry'].startswith('group'):
             opts = {'center_extrema': 'trough', 'threshold_kwargs': dict(S.T0)}
             kind_ref = 'dict'
         else:
@@ -169,6 +177,8 @@ class Schedules3D(Space):
                                                    axis=axis, return_samples=True, n_jobs=nj,
                                                    progress='tqdm' if c['entry'] == '3d-progress' else None), None
                 bg = BycycleGroup(center_extrema='trough', thresholds=dict(S.T0))
+                if c['entry'] == 'group-amp':
+                    bg = BycycleGroup(burst_method='amp', thresholds=dict(S.TA0), burst_kwargs={'amp_threshes': (.5, 1.), 'min_n_cycles': 4})
                 if c['entry'] == 'group-refit':
                     # the same object was fitted before on another array (different shape): nothing may remain of it
                     other = np.array([[S.word_signal(WORDS[-1 - k]) for k in range(2)]] * 1) if (n0, n1) != (1, 2) else \
